@@ -103,7 +103,17 @@ def main():
         shutil.copy(demo, os.path.join(d, os.path.basename(demo)))
         if os.path.exists(notes):
             shutil.copy(notes, os.path.join(d, "agent_notes.md"))
-        with open(os.path.join(d, "meta.json"), "w") as fh:
+        mp = os.path.join(d, "meta.json")
+        if os.path.exists(mp):
+            # a re-run (after a check was strengthened or a run was disturbed): keep the earlier record
+            with open(mp) as fh:
+                old = json.load(fh)
+            prev = old.pop("previous_runs", [])
+            prev.append({"checks": old.get("checks"), "caught_by": old.get("caught_by"), "ran": old.get("ran")})
+            meta["previous_runs"] = prev
+            if skip_suite and "tests passed" in str(old.get("existing_suite_with_patch", "")):
+                meta["existing_suite_with_patch"] = old["existing_suite_with_patch"] + " (from the first confirmation run)"
+        with open(mp, "w") as fh:
             json.dump(meta, fh, indent=1)
     print(json.dumps(meta, indent=1))
     return 0
